@@ -397,14 +397,15 @@ class Gen:
                     rd = lst
                 tagx = ':list1'
         nd = len(dsl.region_cells(rd, 0))
-        q, b = self.min_well_qty(s, rs, (frac if frac is not None else rng.choice([0.2, 0.5, 0.8])) / (nd if form == '1n' else 1))
+        mult = lambda r: max([dsl.region_cells(r, 0).count(c) for c in dsl.region_cells(r, 0)] or [1])      # a well listed k times gives / takes k times
+        q, b = self.min_well_qty(s, rs, (frac if frac is not None else rng.choice([0.2, 0.5, 0.8])) / (nd if form == '1n' else 1) / mult(rs))
         if q is None:
             if rng.random() < 0.8:
                 return None
             q = {'v': '5', 'p': 'u', 'b': 'L'}
         if form != 'bad':
             sc, dc = dsl.region_cells(rs, 0), dsl.region_cells(rd, 0)
-            q = self.clear_of_capacity(q, [self.well_obj(s, c) for c in sc], [self.well_obj(d, c) for c in dc], fan_in=(len(sc) if len(dc) == 1 else 1))
+            q = self.clear_of_capacity(q, [self.well_obj(s, c) for c in sc], [self.well_obj(d, c) for c in dc], fan_in=(len(sc) if len(dc) == 1 else mult(rd)))
         op = {'op': 'transfer', 'src': {'p': s, 'r': rs}, 'dst': {'p': d, 'r': rd}, 'q': q, 'osrc': self.fresh(), 'odst': self.fresh()}
         o = self.emit(op, 'pair:' + form + tagx + (':same' if s == d else ':two'))
         if o['ok']:
